@@ -65,8 +65,8 @@ Proof.
   unfold track, attempts_at. cbn [erase_detail atomicity attempt_pos pos_attempts neg_attempts lookahead].
   destruct (atom_eqb (atomicity s) Atomic); [reflexivity|].
   destruct (_ && _); [reflexivity|].
-  destruct (Nat.eqb p (attempt_pos s)); cbn;
-    repeat match goal with |- context [if ?c then _ else _] => destruct c; cbn end; reflexivity.
+  destruct (Nat.eqb p (attempt_pos s)) eqn:E1; cbn; destruct (Nat.ltb (attempt_pos s) p) eqn:E2; cbn;
+    try rewrite E1; try rewrite Nat.eqb_refl; cbn; destruct (lk_eqb (lookahead s) LNeg); reflexivity.
 Qed.
 
 Lemma track_dsame s r p a b c : dsame s (track s r p a b c).
@@ -86,3 +86,77 @@ Qed.
 
 Lemma rule_enter_dsame s : dsame s (snd (rule_enter s)).
 Proof. destruct (rule_enter_spec s) as (_ & _ & _ & _ & _ & []). repeat split; auto. Qed.
+
+(* ---------- primitives ---------- *)
+Lemma handle_token_erase x sp tk b :
+  erase_detail (handle_token_parse_result x sp tk b) = erase_detail x /\ dle x (handle_token_parse_result x sp tk b).
+Proof.
+  destruct (handle_token_core x sp tk b) as [C M]. split; [now apply same_core_erase|now apply same_core_dle].
+Qed.
+
+Lemma dsame_set_pos s p : dsame s (set_pos s p).
+Proof. repeat split. Qed.
+Lemma dsame_set_stack s st : dsame s (set_stack s st).
+Proof. repeat split. Qed.
+Lemma dsame_set_queue s q : dsame s (set_queue s q).
+Proof. repeat split. Qed.
+Lemma dsame_set_lookahead s l : dsame s (set_lookahead s l).
+Proof. repeat split. Qed.
+Lemma dsame_set_atomicity s a : dsame s (set_atomicity s a).
+Proof. repeat split. Qed.
+Lemma dsame_refl s : dsame s s.
+Proof. repeat split. Qed.
+Lemma dsame_trans a b c : dsame a b -> dsame b c -> dsame a c.
+Proof. intros (A1 & A2 & A3 & A4) (B1 & B2 & B3 & B4). repeat split; congruence. Qed.
+
+Lemma apply_pres_erase s r t :
+  map_res erase_detail (apply_pres s r t) = apply_pres (erase_detail s) r t /\ dpost s (apply_pres s r t).
+Proof.
+  unfold apply_pres. cbn [erase_detail pa_enabled pos]. destruct r as [p| |]; cbn [map_res dpost res_all].
+  - destruct t as [tk|]; [destruct (pa_enabled s)|].
+    + destruct (handle_token_erase (set_pos s p) (pos s) tk true) as [H1 H2]. rewrite H1. split; [reflexivity|].
+      apply (dle_dsame_l s (set_pos s p)); [apply dsame_set_pos|exact H2].
+    + split; [reflexivity|apply dsame_dle, dsame_set_pos].
+    + split; [reflexivity|apply dsame_dle, dsame_set_pos].
+  - destruct t as [tk|]; [destruct (pa_enabled s)|].
+    + destruct (handle_token_erase s (pos s) tk false) as [H1 H2]. rewrite H1. split; [reflexivity|exact H2].
+    + split; [reflexivity|apply dle_refl].
+    + split; [reflexivity|apply dle_refl].
+  - split; [reflexivity|exact I].
+Qed.
+
+Lemma dpost_dsame_l a b r : dsame a b -> dpost b r -> dpost a r.
+Proof. intros H. destruct r; cbn; auto; intros D; eapply dle_dsame_l; eauto. Qed.
+
+Lemma peek_slice_erase s i j d :
+  map_res erase_detail (peek_slice s i j d) = peek_slice (erase_detail s) i j d /\ dpost s (peek_slice s i j d).
+Proof.
+  unfold peek_slice. cbn [erase_detail stack input pos].
+  destruct (constrain_idxs i j (length (cache (stack s)))) as [[a b]|]; [|split; [reflexivity|apply dle_refl]].
+  destruct (Nat.leb b a); [split; [reflexivity|apply dle_refl]|].
+  destruct (match_all _ _ _); (split; [reflexivity|]); [apply dsame_dle, dsame_set_pos|apply dle_refl].
+Qed.
+
+Lemma exec_prim_erase cfg o s :
+  map_res erase_detail (exec_prim cfg o s) = exec_prim cfg o (erase_detail s) /\ dpost s (exec_prim cfg o s).
+Proof.
+  destruct o; cbn [exec_prim]; unfold st_match_string; cbn [erase_detail input pos stack lookahead queue];
+    try apply apply_pres_erase; try apply peek_slice_erase;
+    try (split; [reflexivity|apply dle_refl]).
+  - (* skip_until *) destruct (skip_until cfg (input s) (pos s) ss); (split; [reflexivity|]); [apply dsame_dle, dsame_set_pos|exact I].
+  - (* soi *) destruct (Nat.eqb (pos s) 0); (split; [reflexivity|apply dle_refl]).
+  - (* eoi *) destruct (Nat.eqb (pos s) (length (input s))); (split; [reflexivity|apply dle_refl]).
+  - (* push literal *) split; [reflexivity|apply dsame_dle, dsame_set_stack].
+  - (* peek *) destruct (peek (stack s)); [apply apply_pres_erase|split; [reflexivity|exact I]].
+  - (* pop *) destruct (pop (stack s)) as [st' [str|]]; [|split; [reflexivity|exact I]].
+    destruct (apply_pres_erase (set_stack s st') (match_string (input s) (pos s) str) (Some (TSens str))) as [H1 H2].
+    split; [exact H1|]. eapply dpost_dsame_l; [apply dsame_set_stack|exact H2].
+  - (* drop *) destruct (pop (stack s)) as [st' [str|]]; (split; [reflexivity|]); [apply dsame_dle, dsame_set_stack|apply dle_refl].
+  - (* match_pop *) destruct (match_pop_loop _ _ _ _) as [[[st' p] [|]]|]; (split; [reflexivity|]); cbn.
+    + apply dsame_dle. repeat split.
+    + apply dsame_dle. repeat split.
+    + exact I.
+  - (* tag *) destruct (negb (lk_eqb (lookahead s) LNone)); [split; [reflexivity|apply dle_refl]|].
+    destruct (queue s) as [|[e p|si r tg p] q]; (split; [reflexivity|]); try apply dle_refl.
+    apply dsame_dle, dsame_set_queue.
+Qed.
